@@ -41,7 +41,28 @@ Theorem C02_write_queues_split : forall (A : Type) (F cap : Z) (w : bool) (local
 Proof. exact thm_write_queues_split. Qed.
 Print Assumptions C02_write_queues_split.
 
-(* full statement without the room hypothesis:
+(* write(false, ...) -- Session.Write and Session.Task -- for EVERY occupancy of the queue and every
+   fragment count: refused (ErrFullBuffer, nothing queued) exactly when not everything fits, otherwise
+   nil and everything is queued.  (The single-packet path wants two free slots.) *)
+Theorem C02_write_refusal_exact : forall (A : Type) (F cap local qlen g : Z) (n : packet A), 0 < F -> 0 <= p_tags n ->
+  (size n <= F ->
+     (cap <= qlen + 1 -> write F cap false local qlen g n = (ErrFullBuffer, [])) /\
+     (qlen + 1 < cap -> write F cap false local qlen g n = (0, [stamp local n]))) /\
+  (F < size n ->
+     (cap - qlen < nfrag F n -> write F cap false local qlen g n = (ErrFullBuffer, [])) /\
+     (nfrag F n <= cap - qlen -> write F cap false local qlen g n = (0, map (stamp local) (split F g n)))).
+Proof. exact thm_write_refusal_exact. Qed.
+Print Assumptions C02_write_refusal_exact.
+
+Theorem C02_write_false_all_or_nothing : forall (A : Type) (F cap local qlen g : Z) (n : packet A), 0 < F -> 0 <= p_tags n ->
+  (fst (write F cap false local qlen g n) = 0 ->
+     snd (write F cap false local qlen g n) = map (stamp local) (if size n <=? F then [n] else split F g n)) /\
+  (fst (write F cap false local qlen g n) <> 0 ->
+     fst (write F cap false local qlen g n) = ErrFullBuffer /\ snd (write F cap false local qlen g n) = []).
+Proof. exact thm_write_false_all_or_nothing. Qed.
+Print Assumptions C02_write_false_all_or_nothing.
+
+(* write(true, ...) has no such rule; the full statement without the room hypothesis:
      forall ..., write F cap true local qlen g n = (0, l) -> l = map (stamp local) (split F g n)
    is false of the model (= the code): *)
 Theorem C02_split_fits_queue_refuted : exists (F cap local qlen g : Z) (n : packet Z),
